@@ -33,6 +33,9 @@ type cacheRunner[V any] struct {
 	c   *cache.Cache[string, V]
 	enc func(int) V
 	dec func(V) int
+	// items handed out by Get, with the value read at that moment (`held` re-reads them)
+	held     []*cache.Item[V]
+	heldVals []int
 }
 
 func key(s string) string { return "k" + s }
@@ -56,7 +59,17 @@ func (r *cacheRunner[V]) Do(op []string) string {
 			}
 			return "0 err"
 		}
-		return itoa(r.dec(it.Val())) + " ok"
+		v := r.dec(it.Val())
+		if len(r.held) < 64 {
+			r.held, r.heldVals = append(r.held, it), append(r.heldVals, v)
+		}
+		return itoa(v) + " ok"
+	case "held": // every item Get has handed out so far: [value read at the time, value read now]
+		items := make([]string, len(r.held))
+		for i, it := range r.held {
+			items[i] = "[" + itoa(r.heldVals[i]) + "," + itoa(r.dec(it.Val())) + "]"
+		}
+		return plist(items)
 	case "delete":
 		return errs(c.Delete(key(op[1])))
 	case "flush":
@@ -130,7 +143,8 @@ func init() {
 }
 
 func genC08(g *Gen) {
-	obs := []string{"count", "list", "get 0", "get 1", "get 2", "isexpired 0", "isexpired 1", "isexpired 2"}
+	// `held` re-reads every item Get has handed out so far (at most 64 per case are kept)
+	obs := []string{"count", "list", "get 0", "get 1", "get 2", "isexpired 0", "isexpired 1", "isexpired 2", "held"}
 	// (1) time-free exhaustive part: durations default(0), none(-1), long(1000), short(5: expires only if time passes)
 	var muts []string
 	for k := 0; k < 3; k++ {
